@@ -60,7 +60,7 @@ impl Scn {
             match child.try_wait() {
                 Ok(Some(st)) => break Some(st),
                 Ok(None) => {
-                    if start.elapsed() > std::time::Duration::from_secs(180) { let _ = child.kill(); let _ = child.wait(); break None; }
+                    if start.elapsed() > std::time::Duration::from_secs(600) { let _ = child.kill(); let _ = child.wait(); break None; }
                     std::thread::sleep(std::time::Duration::from_millis(5));
                 }
                 Err(_) => break None,
@@ -69,7 +69,7 @@ impl Scn {
         let out = t1.join().unwrap_or_default();
         let err = t2.join().unwrap_or_default();
         let code = match status { Some(st) => st.code().unwrap_or(-(st.to_string().len() as i32)), None => -99 };
-        (code, String::from_utf8_lossy(&out).to_string() + &String::from_utf8_lossy(&err) + if status.is_none() { "\nTIMEOUT: killed by the harness after 180 s" } else { "" })
+        (code, String::from_utf8_lossy(&out).to_string() + &String::from_utf8_lossy(&err) + if status.is_none() { "\nTIMEOUT: killed by the harness after 600 s" } else { "" })
     }
 }
 
@@ -215,7 +215,17 @@ pub fn suite_clirt(dir: &str, seed: u64, thorough: bool, st: &mut Stats) {
     par_for(n + nbig, 12, |i, st, lines| {
         let mut rng = Rng::new(seed ^ 0x91 ^ ((i as u64) << 20));
         let big = i >= n;
-        let c = if !big && i % 6 == 5 { match crate::archive::equal_size_case(&mut rng) { Some(c) => { st.count("clirt/equal-size-chunk"); c } None => gen_cli_case(&mut rng, false) } }
+        let c = if !big && i < 8 {
+            // every codec at its highest levels on compressible data (window / memory settings grow with the level)
+            let mut c = gen_cli_case(&mut rng, false);
+            let (t, l) = [(2u32, 22u32), (2, 21), (2, 20), (1, 9), (3, 11), (3, 10), (2, 19), (1, 8)][i];
+            c.comp = Some((t, l));
+            // (few, larger chunks: the high levels allocate their large windows once per chunk)
+            c.cfg = if i % 2 == 0 { Cfg { algo: 'F', bits: 0, min: 0, max: 8192, win: 0 } } else { Cfg { algo: 'R', bits: 11, min: 2048, max: 16384, win: 64 } };
+            c.src = (0..rng.range(20_000, 60_000)).map(|_| b"abcdefgh01"[rng.below(10) as usize]).collect();
+            st.count("clirt/highest-levels");
+            c
+        } else if !big && i % 6 == 5 { match crate::archive::equal_size_case(&mut rng) { Some(c) => { st.count("clirt/equal-size-chunk"); c } None => gen_cli_case(&mut rng, false) } }
                 else { gen_cli_case(&mut rng, big) };
         let s = Scn::new("rt", i as u64);
         s.write("src.bin", &c.src);
@@ -503,7 +513,9 @@ pub fn suite_clirefuse(dir: &str, seed: u64, _thorough: bool, st: &mut Stats) {
     let mut rng = Rng::new(seed ^ 0x93);
     // one valid archive
     let base = Scn::new("rfbase", 0);
-    let src = gen_data(&mut rng, 4000).0;
+    // a source with repeated content (its unique chunks are much smaller than the source itself)
+    let blk = gen_data(&mut rng, 1000).0;
+    let src: Vec<u8> = (0..4).flat_map(|_| blk.iter().copied()).collect();
     base.write("src.bin", &src);
     let (code, _) = base.bita(&["compress", "-i", "src.bin", "--min-chunk-size", "64", "--avg-chunk-size", "256", "--max-chunk-size", "1024", "--hash-length", "8", "a.cba"], None, &[]);
     assert_eq!(code, 0);
@@ -512,7 +524,7 @@ pub fn suite_clirefuse(dir: &str, seed: u64, _thorough: bool, st: &mut Stats) {
     let hc = hex(&archive[archive.len().min(14 + u64::from_le_bytes(archive[6..14].try_into().unwrap()) as usize + 8)..][..64]);
     let mut cases: Vec<(String, String, String, String)> = vec![]; // (cmd, outkind, flag, archivekind)
     for cmd in ["clone", "compress"] {
-        for outkind in ["absent", "regular", "regular-empty", "regular-long", "blockdev-small", "blockdev-big"] {
+        for outkind in ["absent", "regular", "regular-empty", "regular-long", "blockdev-small", "blockdev-mid", "blockdev-big"] {
             for flag in ["none", "force", "seed-output", "verify", "verify-force"] {
                 for ak in ["valid", "invalid", "mismatch", "prefix-pin", "prefix-pin-63", "empty-pin", "match-pin"] {
                     if cmd == "compress" && (flag == "seed-output" || flag.starts_with("verify") || ak != "valid" || outkind.starts_with("blockdev") || outkind == "regular-long") { continue; }
@@ -529,7 +541,7 @@ pub fn suite_clirefuse(dir: &str, seed: u64, _thorough: bool, st: &mut Stats) {
     par_for(cases.len(), 12, |i, st, lines| {
         let (cmd, outkind, flag, ak) = &cases[i];
         let s = Scn::new("rf", i as u64);
-        let prior: Vec<u8> = match outkind.as_str() { "absent" => vec![], "blockdev-small" => vec![0x11; 100], "blockdev-big" => vec![0x22; src.len() + 50], "regular-empty" => vec![], "regular-long" => vec![0x33; src.len() + 777], _ => b"precious existing content".to_vec() };
+        let prior: Vec<u8> = match outkind.as_str() { "absent" => vec![], "blockdev-small" => vec![0x11; 100], "blockdev-mid" => vec![0x44; src.len() - 300], "blockdev-big" => vec![0x22; src.len() + 50], "regular-empty" => vec![], "regular-long" => vec![0x33; src.len() + 777], _ => b"precious existing content".to_vec() };
         if outkind != "absent" { s.write("out.bin", &prior); }
         let mut args: Vec<String> = vec![cmd.clone()];
         let mut env: Vec<(&str, &str)> = vec![];
@@ -574,7 +586,7 @@ pub fn suite_clirefuse(dir: &str, seed: u64, _thorough: bool, st: &mut Stats) {
         let exists = outkind != "absent";
         let refuse_exists = exists && (flag == "none" || flag == "verify");
         let refuse_archive = cmd == "clone" && (ak == "invalid" || ak == "mismatch" || ak.starts_with("prefix-pin") || ak == "empty-pin");
-        let refuse_small = cmd == "clone" && outkind == "blockdev-small" && flag != "none" && flag != "verify" && !refuse_archive;
+        let refuse_small = cmd == "clone" && (outkind == "blockdev-small" || outkind == "blockdev-mid") && flag != "none" && flag != "verify" && !refuse_archive;
         let refused = refuse_exists || refuse_archive || refuse_small;
         let state = match (&now, exists) {
             (None, false) => "absent",
